@@ -109,16 +109,27 @@ func toHistPlan(pl interface{}) (*histPlan, error) {
 	return &hp, json.Unmarshal(b, &hp)
 }
 
+// Reproduce re-executes the history. A tree whose results depend on something that is neither argument nor
+// history (Go's randomised map iteration order, for one) violates C13 by that very fact, but then a single
+// re-execution may come out clean: the history is tried up to six times before it counts as not reproduced.
 func (g *c13Engine) Reproduce(pl interface{}) (*Violation, error) {
 	hp, err := toHistPlan(pl)
 	if err != nil {
 		return nil, err
 	}
-	_, v, err := g.run(hp)
-	if err != nil || v == nil {
-		return nil, err
+	for try := 0; try < 6; try++ {
+		_, v, err := g.run(hp)
+		if err != nil {
+			return nil, err
+		}
+		if v != nil {
+			if try > 0 {
+				v.Detail += fmt.Sprintf(" [observed in 1 of %d executions of the same history: the outcome is not a function of arguments and history]", try+1)
+			}
+			return g.violation(hp, v), nil
+		}
 	}
-	return g.violation(hp, v), nil
+	return nil, nil
 }
 
 func (g *c13Engine) Minimise(v *Violation) *Violation {
